@@ -436,5 +436,8 @@ PROPS["C04"]["explanation"] += " (FILLCOVER) the fill of a never-written chunk's
 PROPS["C13"]["rules"] = PROPS["C13"]["rules"] + [rules_handles.rule_release_removes_key]
 PROPS["C13"]["explanation"] += " (RELKEY) a public routine that releases the identifier it is given removes it from the atom table on every non-failing path, also when other users of a shared object remain."
 
+PROPS["C01"]["rules"] = PROPS["C01"]["rules"] + [rules_idioms.rule_written_local_initialised]
+PROPS["C01"]["explanation"] += " (INITWRITE) a local whose bytes are written to the file has been given a value (the byte that reserves a block is zero, so gaps read as zeros)."
+
 NOT_APPLICABLE = {}
 
